@@ -918,3 +918,11 @@ silent("runtime-exit-restore-helper", ["C14", "C15"], RT,
        """            self._restore(thread, previous)""",
        also=[("    def __exit__(self, exc_type, exc_value, traceback):",
               "    def _restore(self, thread, previous):\n        if previous is None:\n            _RUNTIMES.pop(thread, None)\n            return\n        _RUNTIMES[thread] = previous\n\n    def __exit__(self, exc_type, exc_value, traceback):")])
+
+# ------------------------------------------------------------------ from the automatic-mutant survey (test-suite survivors the checks missed)
+fire("option-keys-present-branch-drops-domain", ["C01", "C03"], "R-KC", O,
+     """                {self.key}
+                | self._template_keys(value, "keys", options)
+                | self._domain_keys(options)""",
+     """                {self.key}
+                | self._template_keys(value, "keys", options)""")
